@@ -137,7 +137,7 @@ def translate(sc, res, trace):
     hcancelled = set()
     taken = set()
     # schedulers whose run ends raising an exception of their own orchestration
-    crashed = {e[3] for e in log if e[2] == "rraise" and str(e[4]) == "orch:" + str(e[3])}
+    crashed = {e[3] for e in log if e[2] == "outfail"} | {e[3] for e in log if e[2] == "rraise" and str(e[4]) == "orch:" + str(e[3])}
     n = len(log)
 
     def ack_unstarted(K):
@@ -465,10 +465,11 @@ def replay_all(pid, traces, res, drv):
     layers, relevant = RELEVANT[pid]
     lines, cases = [], []
     for sc, r, trace in traces:
-        if sc.get("cancel_top") is not None or sc.get("busy") or sc.get("strict_out"):
+        if sc.get("cancel_top") is not None or sc.get("busy"):
             # a top-level run cancelled from outside, or time passing while the loop is busy (the model's clock only
-            # advances in quiet states: assumption A2), or a verbose message that the standard output cannot encode (an
-            # exception out of the orchestration itself), are not events of the model: judged by the oracles only
+            # advances in quiet states: assumption A2), are not events of the model: judged by the oracles only
+            # (a verbose message that the standard output cannot encode - an exception out of the orchestration itself -
+            # is one: `orchFail`)
             res.dist["not_replayed"] = res.dist.get("not_replayed", 0) + 1
             continue
         try:
